@@ -209,6 +209,9 @@ def run_model(ops, timeout=300):
 def run_oracle(prop, trace, timeout=600):
     """`prop` may name several oracles joined by '+': a case passes if every one passes."""
     verdicts = {}
+    # `#rd k t` notes (kind=inject: the clock reading a scripted insert carries) are for the Python
+    # oracle of model T only
+    trace = "\n".join(l for l in trace.split("\n") if not l.startswith("#rd "))
     for one in prop.split("+"):
         rc, out, err = run(limited([DRIVER, "oracle", one]), inp=trace, timeout=timeout)
         for l in out.splitlines():
@@ -351,7 +354,52 @@ def py_oracle_C03(case):
     return True
 
 
-PY_ORACLES = {"C17": py_oracle_C17, "C14": py_oracle_C14, "C03": py_oracle_C03}
+def py_oracle_T(case):
+    """kind=inject only; the run-time form of `ConcT_run_fresh` (model T, time-to-live half): a value
+    whose insert read the clock at r is never returned at a reading >= r + ttl. An insert carries
+    the clock of its line, except a scripted whole-call insert that other logical threads overtook
+    between its clock reading and its map write: the harness notes its reading (`#rd k t`, just
+    before its line). Sound whatever was injected: a value inserted several times for a key counts
+    with its LATEST reading."""
+    cfgl = op_of(case[0])
+    if " kind=inject " not in cfgl + " ":
+        return True
+    m = re.search(r" ttl=(\d+) ", cfgl + " ")
+    if not m:
+        return True
+    ttl = int(m.group(1))
+    now, rd, note = 0, {}, {}
+    for l in case[1:]:
+        if l.startswith("#rd "):
+            w = l.split()
+            note[w[1]] = int(w[2])
+            continue
+        if l.rstrip().endswith("bad-op") or " -> panic" in l:
+            continue
+        w = op_of(l).split()
+        res = l.split(" -> ")[-1].strip()
+        if not w:
+            continue
+        if w[0] == "iterover":
+            w = w[1:]
+        if w[0] in ("adv", "iterlag") and len(w) == 2:
+            now += int(w[1])
+        elif w[0] == "ins" and len(w) == 3:
+            r = note.pop(w[1], now)
+            rd[(w[1], w[2])] = max(rd.get((w[1], w[2]), 0), r)
+        elif w[0] == "pins" and len(w) == 4:
+            rd[(w[2], w[3])] = max(rd.get((w[2], w[3]), 0), now)
+        elif w[0] in ("get", "pget"):
+            k = w[1] if w[0] == "get" else w[2]
+            mm = re.match(r"some (\d+)", res)
+            if mm:
+                r = rd.get((k, mm.group(1)))
+                if r is not None and now >= r + ttl:
+                    return False
+    return True
+
+
+PY_ORACLES = {"T": py_oracle_T, "C17": py_oracle_C17, "C14": py_oracle_C14, "C03": py_oracle_C03}
 
 
 def judge_all(oracle_id, ic, impl):
